@@ -699,4 +699,13 @@ theorem roundHalfEven_intCast (z : Int) : roundHalfEven (z : Rat) = z := by
   simp only [Rat.floor_intCast, sub_self]
   norm_num
 
+/-- in every valid convention the two in-plane axes are an orthonormal pair (given orthonormal cosines) -/
+theorem axis_orthoPair (o : Ori) (ho : OrthoPair o.row o.col) {cv : Char × Char} (hcv : cv ∈ validConventions) :
+    OrthoPair (axisVec o cv.1) (axisVec o cv.2) := by
+  obtain ⟨h0, h1, h01⟩ := ho
+  obtain ⟨⟨a, b, c⟩, ⟨d, e, f⟩⟩ := o
+  simp only [V3.dot] at h0 h1 h01
+  rcases mem_validConventions hcv with rfl | rfl | rfl | rfl | rfl | rfl | rfl | rfl <;>
+    refine ⟨?_, ?_, ?_⟩ <;> simp [axisVec, V3.dot, V3.neg] <;> linarith
+
 end HdVerif.Affine
